@@ -93,8 +93,15 @@ func runID1(m *Model, r *RuleResult) {
 	}
 	findings := map[string]finding{}
 	allowed := map[string]int{}
+	skipped := map[string]bool{}
+	lreach := m.LayoutReach()
 	report := func(in ssa.Instruction, what, msg string) {
 		fn := in.Parent()
+		if !lreach[fn] && !m.FuncIsPosctl(fn) {
+			// not part of any Layout run (a query helper on the result type, a conversion utility): outside the property
+			skipped[funcKey(fn)] = true
+			return
+		}
 		k := "id-use:" + funcKey(fn) + ":" + what
 		if _, ok := findings[k]; !ok {
 			findings[k] = finding{k, m.Pos(in.Pos()), msg, m.FuncIsPosctl(fn)}
@@ -127,20 +134,116 @@ func runID1(m *Model, r *RuleResult) {
 		}
 	}
 
-	// isLocalDedupMap: a map created in this function and used only through lookups/updates (never ranged, never escaping)
-	isLocalDedupMap := func(mv ssa.Value) bool {
-		mk, ok := mv.(*ssa.MakeMap)
-		if !ok || mk.Referrers() == nil {
+	// isLocalDedupMap: a map created in this function family (the function or the closures nested in it, sharing the
+	// variable's cell) and used only through lookups/updates/len (never ranged, never escaping)
+	var mapOnlyKeyed func(v ssa.Value, depth int) bool
+	var cellOnlyKeyed func(cell ssa.Value, depth int) bool
+	mapOnlyKeyed = func(v ssa.Value, depth int) bool {
+		if v.Referrers() == nil || depth > 6 {
 			return false
 		}
-		for _, ref := range *mk.Referrers() {
-			switch ref.(type) {
+		for _, ref := range *v.Referrers() {
+			switch y := ref.(type) {
 			case *ssa.Lookup, *ssa.MapUpdate, *ssa.DebugRef:
+			case *ssa.Store:
+				if y.Val != v || !cellOnlyKeyed(y.Addr, depth+1) {
+					return false
+				}
+			case ssa.CallInstruction:
+				if b, ok := y.Common().Value.(*ssa.Builtin); !ok || b.Name() != "len" {
+					return false
+				}
 			default:
 				return false
 			}
 		}
 		return true
+	}
+	cellSeen := map[ssa.Value]bool{}
+	cellOnlyKeyed = func(cell ssa.Value, depth int) bool {
+		if depth > 6 {
+			return false
+		}
+		switch cell.(type) {
+		case *ssa.Alloc, *ssa.FreeVar:
+		default:
+			return false
+		}
+		if cellSeen[cell] {
+			return true
+		}
+		cellSeen[cell] = true
+		defer delete(cellSeen, cell)
+		if cell.Referrers() == nil {
+			return false
+		}
+		for _, ref := range *cell.Referrers() {
+			switch y := ref.(type) {
+			case *ssa.DebugRef:
+			case *ssa.Store:
+				if y.Addr != cell {
+					return false
+				}
+				if _, isMk := y.Val.(*ssa.MakeMap); !isMk || !mapOnlyKeyed(y.Val, depth+1) {
+					return false
+				}
+			case *ssa.UnOp:
+				if y.Op != token.MUL || !mapOnlyKeyed(y, depth+1) {
+					return false
+				}
+			case *ssa.MakeClosure:
+				fn := y.Fn.(*ssa.Function)
+				for i, b := range y.Bindings {
+					if b == cell && !cellOnlyKeyed(fn.FreeVars[i], depth+1) {
+						return false
+					}
+				}
+			default:
+				return false
+			}
+		}
+		return true
+	}
+	isLocalDedupMap := func(mv ssa.Value) bool {
+		switch x := mv.(type) {
+		case *ssa.MakeMap:
+			return mapOnlyKeyed(x, 0)
+		case *ssa.UnOp:
+			if x.Op != token.MUL {
+				return false
+			}
+			switch cell := x.X.(type) {
+			case *ssa.Alloc:
+				return cellOnlyKeyed(cell, 0)
+			case *ssa.FreeVar:
+				// the cell in the enclosing function that this free variable is bound to
+				fn := cell.Parent()
+				idx := -1
+				for i, fv := range fn.FreeVars {
+					if fv == cell {
+						idx = i
+					}
+				}
+				ok := false
+				if outer := fn.Parent(); outer != nil && idx >= 0 {
+					eachInstr(outer, func(in ssa.Instruction) {
+						if mc, isMC := in.(*ssa.MakeClosure); isMC && mc.Fn == fn && idx < len(mc.Bindings) {
+							ok = cellOnlyKeyed(mc.Bindings[idx], 0)
+						}
+					})
+				}
+				return ok
+			}
+		}
+		return false
+	}
+	// inPopulate: the instruction belongs to a Source.Populate implementation or to a closure nested in one
+	inPopulate := func(in ssa.Instruction) bool {
+		f := in.Parent()
+		for f.Parent() != nil {
+			f = f.Parent()
+		}
+		return f.Name() == "Populate" && f.Signature.Recv() != nil
 	}
 	// isCallerOwnMap: the map is a free variable (or a cell) bound from a parameter of an exported constructor of package autog
 	var isCallerOwnMap func(mv ssa.Value, depth int) bool
@@ -151,6 +254,10 @@ func runID1(m *Model, r *RuleResult) {
 		switch x := mv.(type) {
 		case *ssa.Parameter:
 			fn := x.Parent()
+			// the receiver of a Source.Populate implementation is the caller's own data, too
+			if fn.Parent() == nil && fn.Name() == "Populate" && fn.Signature.Recv() != nil && len(fn.Params) > 0 && fn.Params[0] == x && shortPkg(pkgPathOf(fn)) == "graph" {
+				return true
+			}
 			return fn.Parent() == nil && fn.Object() != nil && fn.Object().Exported() && pkgPathOf(fn) == modPath
 		case *ssa.FreeVar:
 			fn := x.Parent()
@@ -305,7 +412,7 @@ func runID1(m *Model, r *RuleResult) {
 				}
 			case *ssa.MapUpdate:
 				if in.Key == v {
-					if isLocalDedupMap(in.Map) && in.Parent().Name() == "Populate" {
+					if isLocalDedupMap(in.Map) && inPopulate(in) {
 						allow(in, "dedup-key")
 						continue
 					}
@@ -315,7 +422,7 @@ func runID1(m *Model, r *RuleResult) {
 				}
 			case *ssa.Lookup:
 				if in.Index == v {
-					if isLocalDedupMap(in.X) && in.Parent().Name() == "Populate" {
+					if isLocalDedupMap(in.X) && inPopulate(in) {
 						allow(in, "dedup-key")
 						continue
 					}
@@ -379,6 +486,9 @@ func runID1(m *Model, r *RuleResult) {
 				if !bound {
 					report(in, "dyncall", "an identifier is passed to an unresolved dynamic call")
 				}
+			case *ssa.Panic:
+				// the text of a panic message: a diagnostic, like a log line (whether it panics does not depend on the name)
+				allow(in, "panic-message")
 			case *ssa.If:
 				report(in, "branch", "an identifier-derived value is branched on")
 			default:
@@ -406,6 +516,15 @@ func runID1(m *Model, r *RuleResult) {
 			Detail: f.msg + ": the layout is no longer equivariant under renaming of nodes", Control: f.ctl})
 	}
 	r.stat("tainted_values", len(tainted))
+	r.stat("functions_in_a_layout_run", len(lreach))
+	if len(skipped) > 0 {
+		var sk []string
+		for k := range skipped {
+			sk = append(sk, k)
+		}
+		sort.Strings(sk)
+		r.Notes = append(r.Notes, "identifier uses outside any Layout run, not judged: "+strings.Join(sk, ", "))
+	}
 	tf := []string{}
 	for l := range taintedFields {
 		tf = append(tf, l)
